@@ -7,6 +7,7 @@ Author: Wolfgang Maier <maierw@hhu.de>
 import io
 import sys
 import platform
+from copy import deepcopy
 from itertools import chain
 from collections import defaultdict
 from io import StringIO
@@ -78,6 +79,8 @@ def pmcfg(gram, lexicon, dest, dest_enc, **params):
     func_id = 1
     lindef_id = 1
     if 'lex_in_grammar' in params:
+        # add the lexical rules to a copy, not to the grammar of the caller
+        gram = deepcopy(gram)
         for word in lexicon:
             if any(c in BRACKETS for c in word):
                 sys.stderr.write("brackets seem to not have been replaced, " \
@@ -136,6 +139,8 @@ def rcg(gram, lexicon, dest, dest_enc, **params):
     in LoPar format or as grammar productions if lex_in_grammar is specified.
     """
     if 'lex_in_grammar' in params:
+        # add the lexical rules to a copy, not to the grammar of the caller
+        gram = deepcopy(gram)
         for word in lexicon:
             if any(c in BRACKETS for c in word):
                 sys.stderr.write("brackets seem to not have been replaced, " \
